@@ -62,14 +62,6 @@ def run(ctx, prop):
         for s in scheds:
             f.write(json.dumps(s) + "\n")
     ctx.sample({"schedule": scheds[len(scheds) // 2]})
-    l1 = ctx.path("sched_log.ndjson")
-    ctx.harness(["sched", "-scripts", sp, "-out", l1, "-par", "64"], timeout=900)
-    l2 = ctx.path("stress_log.ndjson")
-    ctx.harness(["stress", "-out", l2, "-runs", "2" if quick else "10", "-clients", "8" if quick else "24",
-                 "-requests", "150" if quick else "400", "-seed", str(ctx.seed)], timeout=1500)
-    # a real TCP client that stalls for several seconds in the middle of the replies, then resumes
-    l3 = ctx.path("slow_log.ndjson")
-    ctx.harness(["slow", "-out", l3, "-stall", "6500ms" if quick else "12s"], timeout=300)
     # the reply ledger over every request type and argument class (cases from MC_Outbox!LedgerCases)
     _, cases = ctx.generate("Gen_OutboxLedger", "Gen_OutboxLedger.cfg", "ledger_cases.ndjson", timeout=120)
     cases.sort(key=lambda c: (c["variant"] != "ok", c["variant"], c["type"]))
@@ -77,8 +69,30 @@ def run(ctx, prop):
     with open(cp, "w") as f:
         for c in cases:
             f.write(json.dumps(c) + "\n")
-    l4 = ctx.path("sweep_log.ndjson")
-    ctx.harness(["sweep", "-cases", cp, "-out", l4], timeout=600)
+    l1, l2 = ctx.path("sched_log.ndjson"), ctx.path("stress_log.ndjson")
+    l3, l4 = ctx.path("slow_log.ndjson"), ctx.path("sweep_log.ndjson")
+    # the four drivers are independent processes with their own servers: sweep and slow reader (both mostly waiting)
+    # run next to the schedules and the stress runs
+    import threading
+    errs = []
+
+    def bg(args, timeout):
+        try:
+            ctx.harness(args, timeout=timeout)
+        except Exception as e:  # re-raised below
+            errs.append(e)
+    th = [threading.Thread(target=bg, args=(["sweep", "-cases", cp, "-out", l4], 600)),
+          # a real TCP client that stalls for several seconds in the middle of the replies, then resumes
+          threading.Thread(target=bg, args=(["slow", "-out", l3, "-stall", "6500ms" if quick else "12s"], 300))]
+    for t in th:
+        t.start()
+    ctx.harness(["sched", "-scripts", sp, "-out", l1, "-par", "64"], timeout=900)
+    ctx.harness(["stress", "-out", l2, "-runs", "2" if quick else "10", "-clients", "8" if quick else "24",
+                 "-requests", "150" if quick else "400", "-seed", str(ctx.seed)], timeout=1500)
+    for t in th:
+        t.join()
+    if errs:
+        raise errs[0]
     ctx.notes["ledger_sweep_cases"] = len(cases)
     lp = ctx.path("log.ndjson")
     with open(lp, "w") as f:
